@@ -134,15 +134,15 @@ func ruleWEB5(w *World, r *Report) {
 		})
 		for i, d := range decodes {
 			n++
-			key := fmt.Sprintf("%s:decode#%d", fi.Obj.Name(), i+1)
+			key := fmt.Sprintf("%s:decode#%d", canonName(fi.Obj), i+1)
 			fail := failureEdges(fn, d.(*ssa.Call))
 			if len(fail) == 0 {
-				r.Bad("WEB-5", key, w.Pos(d.Pos()), fi.Obj.Name()+" ignores the decode error: a body that is not JSON is processed as a zero-valued request")
+				r.Bad("WEB-5", key, w.Pos(d.Pos()), canonName(fi.Obj)+" ignores the decode error: a body that is not JSON is processed as a zero-valued request")
 				continue
 			}
-			if why, exempt := web5Exceptions[fi.Obj.Name()]; exempt {
+			if why, exempt := web5Exceptions[canonName(fi.Obj)]; exempt {
 				r.Ok("WEB-5", key, w.Pos(d.Pos()), "exception: "+why)
-				r.Except(fi.Obj.Name() + ": " + why)
+				r.Except(canonName(fi.Obj) + ": " + why)
 				continue
 			}
 			ok := true
@@ -161,7 +161,7 @@ func ruleWEB5(w *World, r *Report) {
 					ok, why, wit = false, "after a decode failure the handler continues to an engine call", w3
 				}
 			}
-			r.Cond(ok, "WEB-5", key, w.Pos(d.Pos()), "decode failure → 4xx → return", fi.Obj.Name()+": "+why, w.witness(wit)...)
+			r.Cond(ok, "WEB-5", key, w.Pos(d.Pos()), "decode failure → 4xx → return", canonName(fi.Obj)+": "+why, w.witness(wit)...)
 		}
 	}
 	r.Count("decode_sites", n)
@@ -217,7 +217,7 @@ func ruleWEB6(w *World, r *Report) {
 			callee := w.FuncObj("pkg/engine", sp.callee)
 			for i, c := range findInstrs(fn, callsTo(callee)) {
 				call := c.(*ssa.Call)
-				key := fmt.Sprintf("%s:%s#%d:%s", fi.Obj.Name(), sp.callee, i+1, strings.ReplaceAll(sp.what, " ", "-"))
+				key := fmt.Sprintf("%s:%s#%d:%s", canonName(fi.Obj), sp.callee, i+1, strings.ReplaceAll(sp.what, " ", "-"))
 				if !fromDecodedRequest(call.Call.Args[sp.argIdx], 0) {
 					r.Ok("WEB-6", key, w.Pos(call.Pos()), "the argument is produced by the server, not taken from the request")
 					continue
@@ -284,7 +284,7 @@ func ruleWEB6(w *World, r *Report) {
 				isCmp = func(in ssa.Instruction) bool { return direct(in) || viaValidator(in) }
 				cmps := findInstrs(fn, isCmp)
 				if len(cmps) == 0 {
-					r.Bad("WEB-6", key, w.Pos(call.Pos()), fmt.Sprintf("%s passes a request-controlled %s to %s without comparing it with the published limit %d: an over-limit request is processed instead of being refused with 4xx", fi.Obj.Name(), sp.what, sp.callee, sp.limit))
+					r.Bad("WEB-6", key, w.Pos(call.Pos()), fmt.Sprintf("%s passes a request-controlled %s to %s without comparing it with the published limit %d: an over-limit request is processed instead of being refused with 4xx", canonName(fi.Obj), sp.what, sp.callee, sp.limit))
 					continue
 				}
 				found, wit := (pathQuery{fn: fn, target: func(in ssa.Instruction) bool { return in == c }, avoid: isCmp, blocked: zeroIterEdges(fn, isCmp)}).find(entryPos(fn))
@@ -305,7 +305,7 @@ func ruleWEB6(w *World, r *Report) {
 						}
 					}
 				}
-				r.Cond(okc, "WEB-6", key, w.Pos(call.Pos()), fmt.Sprintf("%s is compared with %d before the call on every path", sp.what, sp.limit), fmt.Sprintf("%s can reach %s on a path that skips (or survives) the %s limit test", fi.Obj.Name(), sp.callee, sp.what), w.witness(wit)...)
+				r.Cond(okc, "WEB-6", key, w.Pos(call.Pos()), fmt.Sprintf("%s is compared with %d before the call on every path", sp.what, sp.limit), fmt.Sprintf("%s can reach %s on a path that skips (or survives) the %s limit test", canonName(fi.Obj), sp.callee, sp.what), w.witness(wit)...)
 			}
 		}
 	}
@@ -320,8 +320,8 @@ func ruleWEB6(w *World, r *Report) {
 	for _, b := range fn.Blocks {
 		for _, in := range b.Instrs {
 			if c, ok := in.(*ssa.Call); ok {
-				if o := calleeObj(&c.Call); o != nil && relPkg(o) == "internal/server" && strings.HasSuffix(strings.ToLower(o.Name()), "middleware") {
-					order = append(order, o.Name())
+				if o := calleeObj(&c.Call); o != nil && relPkg(o) == "internal/server" && strings.HasSuffix(strings.ToLower(canonName(o)), "middleware") {
+					order = append(order, canonName(o))
 				}
 			}
 		}
@@ -367,8 +367,8 @@ func ruleWEB7(w *World, r *Report) {
 				k++
 				c := in.(*ssa.Call)
 				found, wit := (pathQuery{fn: f, target: is4xx, blocked: failureEdges(f, c)}).find(posOf(in))
-				key := fmt.Sprintf("%s:%s#%d", fi.Obj.Name(), calleeObj(&c.Call).Name(), k)
-				r.Cond(!found, "WEB-7", key, w.Pos(c.Pos()), "no 4xx after the mutation succeeded", fi.Obj.Name()+" can answer 4xx although "+calleeObj(&c.Call).Name()+" already succeeded: the client is told the request was refused while the database changed", w.witness(wit)...)
+				key := fmt.Sprintf("%s:%s#%d", canonName(fi.Obj), calleeObj(&c.Call).Name(), k)
+				r.Cond(!found, "WEB-7", key, w.Pos(c.Pos()), "no 4xx after the mutation succeeded", canonName(fi.Obj)+" can answer 4xx although "+calleeObj(&c.Call).Name()+" already succeeded: the client is told the request was refused while the database changed", w.witness(wit)...)
 			}
 		}
 	}
@@ -417,7 +417,7 @@ func ruleWEB7(w *World, r *Report) {
 					}
 				}
 				m++
-				r.Cond(!bad, "WEB-7b", fmt.Sprintf("%s:%s#%d:later-failure-not-answered-as-error", fi.Obj.Name(), calleeObj(&c.Call).Name(), i+1), w.Pos(c.Pos()), "no later engine failure becomes an error response once this call has changed the database", fi.Obj.Name()+" answers with an error status when a later engine call fails although "+calleeObj(&c.Call).Name()+" has already changed the database: the client is told the request failed, but part of it has taken effect (and is journaled)", w.witness(wit)...)
+				r.Cond(!bad, "WEB-7b", fmt.Sprintf("%s:%s#%d:later-failure-not-answered-as-error", canonName(fi.Obj), calleeObj(&c.Call).Name(), i+1), w.Pos(c.Pos()), "no later engine failure becomes an error response once this call has changed the database", canonName(fi.Obj)+" answers with an error status when a later engine call fails although "+calleeObj(&c.Call).Name()+" has already changed the database: the client is told the request failed, but part of it has taken effect (and is journaled)", w.witness(wit)...)
 			}
 		}
 	}
